@@ -224,7 +224,7 @@ def reach_table_after_model_reads(T: int, ops: List[int]) -> bool:
     """
     pre: 1 <= T <= 2
     pre: 1 <= len(ops) <= 2
-    pre: all(0 <= o <= 17 for o in ops)
+    pre: all(0 <= o <= 11 for o in ops)
     post: not (_ and T == 2 and len(ops) == 2)
     """
     return _table_reads_plain(T, ops)
@@ -234,7 +234,7 @@ def check_table_after_model_reads(T: int, ops: List[int]) -> bool:
     """
     pre: 1 <= T <= 2
     pre: 1 <= len(ops) <= 2
-    pre: all(0 <= o <= 17 for o in ops)
+    pre: all(0 <= o <= 11 for o in ops)
     post: _
     """
     return _table_reads_plain(T, ops)
